@@ -79,6 +79,7 @@ type Verdict struct {
 
 type shadowReader struct {
 	p     *Party
+	rnd   *SimRand // the party's randomness source this shadow follows (replaced on crash/restart)
 	call  int
 	used  map[int]bool
 	start int
@@ -92,7 +93,7 @@ func (s *shadowReader) Read(b []byte) (int, error) {
 		b[0] = 0x55
 		return 1, nil
 	}
-	ds := s.p.Rand.Draws
+	ds := s.rnd.Draws
 	for s.start < len(ds) && ds[s.start].Call < s.call {
 		s.start++
 	}
@@ -109,7 +110,7 @@ func (s *shadowReader) Read(b []byte) (int, error) {
 func NewOmni(w *World) *Omni {
 	o := &Omni{W: w, Verdict: map[int]*Verdict{}, Off: map[int]bool{}, Strict: true}
 	for _, p := range w.P {
-		o.Sh = append(o.Sh, &Shadow{P: p, rd: &shadowReader{p: p, used: map[int]bool{}}})
+		o.Sh = append(o.Sh, &Shadow{P: p, rd: &shadowReader{p: p, rnd: p.Rand, used: map[int]bool{}}})
 	}
 	w.Observers = append(w.Observers, o.observe)
 	return o
@@ -118,7 +119,7 @@ func NewOmni(w *World) *Omni {
 // Reset forgets the shadow of party i (after a crash/restart).
 func (o *Omni) Reset(i int) {
 	p := o.W.P[i]
-	o.Sh[i] = &Shadow{P: p, rd: &shadowReader{p: p, used: map[int]bool{}}}
+	o.Sh[i] = &Shadow{P: p, rd: &shadowReader{p: p, rnd: p.Rand, used: map[int]bool{}}}
 }
 
 func (o *Omni) div(format string, a ...interface{}) {
@@ -215,7 +216,7 @@ func (o *Omni) observe(p *Party, r *CallResult) {
 		return
 	}
 	s := o.Sh[p.Idx]
-	if s.P != p || s.rd.p.Rand != p.Rand {
+	if s.P != p || s.rd.rnd != p.Rand {
 		// party was rebuilt (crash/restart)
 		o.Reset(p.Idx)
 		s = o.Sh[p.Idx]
